@@ -181,6 +181,7 @@ def run(ctx):
     reply_family(ctx, res)
     xsitype_chain_family(ctx, res)
     all_duplicate_family(ctx, res)
+    dataset_growth_history(ctx, res)
     # model: exact equality of the number of decode calls (and of outcomes / values where comparable)
     if ctx.model and pending:
         outs = ctx.model.run([p[0] for p in pending])
@@ -342,6 +343,54 @@ def all_duplicate_family(ctx, res):
                                                  case=dict(kind="all-duplicate", dup=dname, holder=hname, k=k, strict=strict, document=text[:2000])))
 
 
+def dataset_growth_history(ctx, res):
+    """one client, the same operation, 200 replies that carry their own schema (the DataSet idiom: inline xs:schema then xs:any): the work
+    for the N-th reply and the number of objects the client keeps alive do not grow with N"""
+    import gc
+    import io
+    import zeep
+    import zeep.transports
+    from harness.props import c05
+    box = {}
+
+    class T(zeep.transports.Transport):
+        def post(self, address, message, headers):
+            import requests
+            r = requests.Response()
+            r.status_code = 200
+            r.headers["Content-Type"] = "text/xml; charset=utf-8"
+            r._content = box["reply"]
+            return r
+    for label in ("row-in-described-namespace",):
+        client = zeep.Client(io.BytesIO(c05.DS_WSDL.encode()), transport=T())
+        events, objects = [], []
+        n = 200
+        for i in range(n):
+            box["reply"] = (c05.DS_REPLY % ("xs:int", "k%d" % i, str(i))).encode()
+            outcome, ev, v = enginea.budgeted(lambda: client.service.Query(table="t"), 400000, wall=20)
+            if outcome != "ok":
+                res.failures.append(dict(what="self-describing reply %d: %s" % (i, outcome), case=dict(kind="dataset-growth", label=label, step=i)))
+                break
+            events.append(ev)
+            if i in (19, n - 1):
+                del v
+                gc.collect()
+                objects.append(len(gc.get_objects()))
+        else:
+            early, late = sorted(events[10:20])[5], sorted(events[-10:])[5]
+            res.case(key=("dataset-growth", label), nontrivial=True)
+            res.count("reply:dataset-growth-history")
+            res.extra["dataset_history_events_early_late"] = [early, late]
+            res.extra["dataset_history_objects_after_20_and_200"] = objects
+            case = dict(kind="dataset-growth", label=label, replies=n)
+            if late > early * 1.25 + 200:
+                res.failures.append(dict(what="the %d-th self-describing reply costs %d interpreter call events, the 15th %d: the work grows with the number of replies decoded before"
+                                              % (n, late, early), case=case))
+            if objects[1] - objects[0] > 2000:
+                res.failures.append(dict(what="the client keeps %d more objects alive after %d self-describing replies than after 20: allocation grows with the history"
+                                              % (objects[1] - objects[0], n), case=case))
+
+
 def search(ctx):
     return run(ctx)
 
@@ -354,6 +403,10 @@ def replay(ctx, payload):
         xsitype_chain_family(ctx, r)
         bad = [f for f in r.failures if f["case"].get("depth") == c.get("depth") and f["case"].get("bottom") == c.get("bottom")]
         return (not bad), "xsi:type chain rerun: %d matching failures" % len(bad)
+    if c.get("kind") == "dataset-growth":
+        r = Result()
+        dataset_growth_history(ctx, r)
+        return (not r.failures), "dataset growth history rerun: %s" % (r.failures[0]["what"] if r.failures else "holds")
     if c.get("kind") == "all-duplicate":
         r = Result()
         all_duplicate_family(ctx, r)
